@@ -556,6 +556,36 @@ def check_aggregate(ctx, cr, ws):
                               'raise_on_violation' % cls)
         elif p.outcome.kind == 'return':
             e = fold_not(t.expand(p.outcome.expr))
+            if not is_const(e):
+                # a verdict kept as an expression over what the walkers
+                # answered: evaluate it with the answers this path tested
+                known = {}
+                for c in p.conds:
+                    if c.kind == 'test':
+                        known[U(t.expand(c.expr))] = c.pol
+                        known[U(c.expr)] = c.pol
+
+                def ev(x):
+                    if isinstance(x, ast.Constant):
+                        return bool(x.value)
+                    if isinstance(x, ast.UnaryOp) and isinstance(
+                            x.op, ast.Not):
+                        v = ev(x.operand)
+                        return None if v is None else not v
+                    if isinstance(x, ast.BoolOp):
+                        vs = [ev(y) for y in x.values]
+                        if isinstance(x.op, ast.Or):
+                            return True if True in vs else (
+                                None if None in vs else False)
+                        return False if False in vs else (
+                            None if None in vs else True)
+                    if isinstance(x, ast.Call) and U(x.func) == 'bool' and \
+                            len(x.args) == 1:
+                        return ev(x.args[0])
+                    return known.get(U(x), known.get(U(t.expand(x))))
+                v = ev(e)
+                if v is not None:
+                    e = ast.Constant(value=v)
             want = not hit
             if not (is_const(e) and e.value is want):
                 bad = bad or (p, 'returns %s although %s' % (
